@@ -394,6 +394,9 @@ def _render_fn_lines(p, fid, ctx, prelude):
         # a call into non-accepted code (its result is dropped: whatever that code does, this function's value stays)
         ctx.add("from %s import ext_helper" % p["ext"]["pkg"])
         lines.append("    ext_helper()")
+    if f.get("uses_display_methods"):
+        # method calls on displays, comprehensions, formatted strings and an immediately called lambda
+        lines.append("    r.append(({\"a\": 1}.get(\"a\"), [3, 1].index(1), f\"v{1}\".upper(), (1, 2).count(1), [q for q in (1, 2)].count(2), {1, 2}.union({3}) == {1, 2, 3}, (lambda q: q + 1)(2)))")
     if f.get("uses_builtins"):
         # calls of Python builtins (elsewhere a module variable may legitimately carry one of these names)
         lines.append("    r.append((max(1, 2), format(3), list(filter(None, (0, 1))), sorted([2, 1])))")
